@@ -73,3 +73,46 @@ def run(ctx: Ctx):
                       f"{reg.hook_name} {bad}: an undeclared property would be observed", P_HOOKS,
                       getattr(node, "lineno", None)) if bad else None
         ctx.ok("no-mapping-iteration")
+
+
+def _class_hooks(ctx: Ctx):
+    """Axiom A3 covers the generated per-class structure functions.  A class-keyed hand-written hook replaces
+    one: if it hands the input mapping (or a part of it) to a constructor as **kwargs, every undeclared key
+    becomes an unexpected keyword argument; any other class hook leaves the clause undecided."""
+    from ..pymodel import NONE
+    sa = _sitebase.analysis(ctx)
+    n = 0
+    for key, reg in sa.hooks.class_hooks().items():
+        if key == NONE or key[0] in ("opaque", "prim"):
+            continue
+        n += 1
+        fn = reg.hook
+        param = fn.args.args[0].arg
+        splats = []
+        for node in ast.walk(fn):
+            if isinstance(node, ast.Call):
+                for k in node.keywords:
+                    if k.arg is None and any(isinstance(x, ast.Name) and x.id == param for x in ast.walk(k.value)):
+                        splats.append((node, k))
+                for a in node.args:
+                    if isinstance(a, ast.Starred):
+                        pass
+        if splats:
+            node, k = splats[0]
+            ctx.fail("class-hook-ignores-unknown-keys", f"hook={reg.hook_name} key={show(key)}",
+                     f"{reg.hook_name} (registered for {show(key)}) passes `**{ast.unparse(k.value)}` to "
+                     f"{ast.unparse(node.func)}: an undeclared property in that object raises TypeError instead of being ignored",
+                     P_HOOKS, node.lineno)
+        else:
+            raise AnalysisError(f"{P_HOOKS}:{reg.lineno}: a hand-written structure hook is registered for the class "
+                                f"{show(key)}; whether it ignores unknown keys is not decidable by this analysis")
+    if n == 0:
+        ctx.ok("class-hook-ignores-unknown-keys", {"class_keyed_hooks_for_attrs_classes": 0})
+
+
+_run_c15 = run
+
+
+def run(ctx: Ctx):  # noqa: F811
+    _run_c15(ctx)
+    _class_hooks(ctx)
